@@ -153,6 +153,7 @@ pub fn run(args: &Args) -> Report {
             Ev::new(SemEvent { id: rng.arr32(), pubkey: crate::dbgen::author(author_n), sig: [1; 64], kind, created_at: created, tags, content: "x".repeat(content_len + extra) }).unwrap()
         };
         let mut stores_done = 0usize;
+        let mut expires_at: Option<u64> = None;
         'hist: for k in 0..nstores {
             // In every third history the store object is replaced once by one opened on the same files after a writer
             // "died in the middle of a copy": bytes of an unfinished event lie beyond the end marker (the state C13's
@@ -237,6 +238,26 @@ pub fn run(args: &Args) -> Report {
                 let e = Ev::new(SemEvent { id: rng.arr32(), pubkey: crate::dbgen::author(5), sig: [1; 64], kind: 1, created_at: 999, tags: vec![], content: "L".repeat(big) }).unwrap();
                 steps.push(Step { ev: e, track: true, remove_after: false });
                 rep.count("events_larger_than_two_growth_steps");
+            }
+            // one event whose NIP-40 expiration time passes while it is referenced (second history only: it costs a
+            // real sleep of about three seconds); nothing may touch its bytes when it is looked up after that
+            if i == 1 && k == 5 {
+                let now = std::time::SystemTime::now().duration_since(std::time::UNIX_EPOCH).map(|d| d.as_secs()).unwrap_or(0);
+                expires_at = Some(now + 2);
+                let e = Ev::new(SemEvent { id: rng.arr32(), pubkey: crate::dbgen::author(6), sig: [1; 64], kind: 1, created_at: 998, tags: vec![vec!["expiration".into(), format!("{}", now + 2)]], content: "expiring".into() }).unwrap();
+                steps.push(Step { ev: e, track: true, remove_after: false });
+            }
+            if i == 1 && k == 30 {
+                if let Some(t) = expires_at {
+                    loop {
+                        let now = std::time::SystemTime::now().duration_since(std::time::UNIX_EPOCH).map(|d| d.as_secs()).unwrap_or(u64::MAX);
+                        if now > t {
+                            break;
+                        }
+                        std::thread::sleep(std::time::Duration::from_millis(200));
+                    }
+                    rep.count("references_to_an_event_that_expired_while_referenced");
+                }
             }
             match k % 10 {
                 // referenced event is the newest in the map when a newer event at its address replaces it
@@ -339,6 +360,7 @@ pub fn run(args: &Args) -> Report {
         rep.require("tail_replacements_of_a_referenced_event", "no referenced event was replaced while it was the newest in the map");
         rep.require("tail_removals_of_a_referenced_event", "no referenced event was removed while it was the newest in the map");
         rep.require("events_larger_than_two_growth_steps", "no event larger than two growth steps was stored");
+        rep.require("references_to_an_event_that_expired_while_referenced", "no referenced event passed its expiration time during the run");
     }
     rep
 }
